@@ -181,10 +181,16 @@ class ConveyorBelt(Edge):
         #delay=self.get_delay(self.delay)
         print(f"T={self.env.now:.2f}: Conveyor:put: putting item {item.id} ")
         delay = self.capacity * self.delay
+        entry_time_before = getattr(item, 'conveyor_entry_time', None)
         item.conveyor_entry_time = self.env.now
         item_to_put = (item, delay)
         print(f"T={self.env.now:.2f}: {self.id }:put: putting item {item_to_put[0].id} on belt with delay {item_to_put[1]}")
-        return_val = self.belt.put(event, item_to_put)
+        try:
+            return_val = self.belt.put(event, item_to_put)
+        except RuntimeError:
+            # a rejected put leaves the item untouched: it may be an item that is on the belt already
+            item.conveyor_entry_time = entry_time_before
+            raise
         self._conveyor_stats_collector()
         # if len(self.belt.items)==1:
         #     self.item_arrival_event.succeed()
